@@ -110,6 +110,7 @@ type Driver struct {
 	maxDepth int
 	panicMsg string
 
+	endLeaders   []int
 	owners       map[string]*groupOwner
 	endStep      uint64
 	endAt        time.Duration
@@ -646,6 +647,11 @@ func (d *Driver) shutdown() {
 	d.step++
 	d.endAt = d.lastNow
 	d.logf("end-of-plan")
+	for _, in := range d.insts {
+		if in.cur != nil && !in.cur.dead && in.running && in.cur.el.IsLeader() {
+			d.endLeaders = append(d.endLeaders, in.idx)
+		}
+	}
 	var objs []*elObj
 	for _, in := range d.insts {
 		objs = append(objs, in.objs...)
